@@ -1,6 +1,6 @@
 from props import cfg
 
-CFG = cfg('C04', extract='Ex_C03', driver='c03',
+CFG = cfg('C04', refine=['Refine_encrypt'], extract='Ex_C03', driver='c03',
           rule='fault enumeration on real PGPy ciphertexts, each mutated message decrypted by the implementation (must raise or return the ORIGINAL plaintext) and by the '
                'extracted model through hashlib/cryptography (must agree on accept/reject and on the plaintext): every single-bit flip and truncation at every offset '
                'of a passphrase message and a Curve25519 message (quick; RSA-2048: every bit of headers / key id / algorithm / MPI bit count + sampled MPI and data octets), '
